@@ -111,8 +111,10 @@ namespace pika::threads::detail {
         PIKA_ASSERT(num_thread < suspend_conds_.size());
 
         states_[num_thread].store(runtime_state::sleeping);
+        PIKA_VERIF_POINT("sb.suspend.sleeping", this, num_thread, 0);
         std::unique_lock<pu_mutex_type> l(suspend_mtxs_[num_thread]);
         suspend_conds_[num_thread].wait(l);
+        PIKA_VERIF_POINT("sb.suspend.woke", this, num_thread, 0);
 
         // Only set running if still in runtime_state::sleeping. Can be set with
         // non-blocking/locking functions to stopping or terminating, in
@@ -133,6 +135,7 @@ namespace pika::threads::detail {
         else
         {
             PIKA_ASSERT(num_thread < suspend_conds_.size());
+            PIKA_VERIF_POINT("sb.resume.notify", this, num_thread, 0);
             suspend_conds_[num_thread].notify_one();
         }
     }
@@ -166,6 +169,8 @@ namespace pika::threads::detail {
                             {
                                 if (states_[num_thread_local] <= max_allowed_state)
                                 {
+                                    PIKA_VERIF_POINT("sb.select_pu", this, num_thread_local,
+                                        static_cast<int>(states_[num_thread_local].load()));
                                     num_thread = num_thread_local;
                                     return false;
                                 }
